@@ -19,7 +19,8 @@ From Coq Require Import List NArith Bool.
 From V.gen Require Consts.
 From V.common Require Import Varint.
 Require V.C18.Model.
-From V.C01 Require Import Model Proofs.
+Require V.C02.Model V.C02.Proofs.
+From V.C01 Require Import Model Proofs Early Symbolic.
 Import ListNotations.
 Open Scope N_scope.
 
@@ -129,6 +130,68 @@ Theorem C01_reject_regardless_of_dialed :
     accept on_curve verify pb rs dialed = Reject e.
 Proof. exact reject_regardless_of_dialed. Qed.
 Print Assumptions C01_reject_regardless_of_dialed.
+
+(* ---- the payload parser on non-canonical inputs (the general statement is the decoder itself;
+   these two instances pin the behaviours the property text names) ---- *)
+(* a repeated identity_key: the last one wins *)
+Theorem C01_payload_last_key_wins :
+  forall k1 k2 sg,
+    len k1 < 128 -> len k2 < 128 -> len sg < 128 ->
+    decode_payload ([10; len k1] ++ k1 ++ [10; len k2] ++ k2 ++ [18; len sg] ++ sg)
+    = Some (mkPayload (Some k2) (Some sg)).
+Proof. exact decode_payload_last_key_wins. Qed.
+Print Assumptions C01_payload_last_key_wins.
+
+(* an unknown field (tag 3, varint) is skipped *)
+Theorem C01_payload_unknown_field_skipped :
+  forall key v sg,
+    len key < 128 -> v < 128 -> len sg < 128 ->
+    decode_payload ([10; len key] ++ key ++ [24; v] ++ [18; len sg] ++ sg)
+    = Some (mkPayload (Some key) (Some sg)).
+Proof. exact decode_payload_unknown_field_skipped. Qed.
+Print Assumptions C01_payload_unknown_field_skipped.
+
+(* ---- the TLS caller (QUIC): crypto/tls/certificate.rs::parse + verifier.rs, after the X.509 layer
+   (x509-parser, certificate validity and self-signature checked with ring: trusted) ---- *)
+(* the only way to be accepted: exactly one well-formed libp2p extension whose key blob is admitted
+   (same admission as above), whose signature verifies over P2P_SIGNING_PREFIX ++ the
+   certificate's SubjectPublicKeyInfo, the id being derived from that key and equal to the dialed
+   peer when there is one (verify_server_cert; verify_client_cert has none) *)
+Theorem C01_tls_accept_sound :
+  forall on_curve verify x spki expected p,
+    tls_accept on_curve verify x spki expected = Accept p ->
+    exists kb sg k,
+      x = TlsExt kb sg /\ decode_pubkey on_curve kb = KeyOk k /\
+      verify k (TLS_PREFIX ++ spki) sg = true /\
+      p = peer_id_of_key k /\ (expected = None \/ expected = Some p).
+Proof. exact tls_accept_sound. Qed.
+Print Assumptions C01_tls_accept_sound.
+
+Theorem C01_tls_accept_complete :
+  forall on_curve verify kb sg k spki expected,
+    decode_pubkey on_curve kb = KeyOk k -> verify k (TLS_PREFIX ++ spki) sg = true ->
+    (expected = None \/ expected = Some (peer_id_of_key k)) ->
+    tls_accept on_curve verify (TlsExt kb sg) spki expected = Accept (peer_id_of_key k).
+Proof. exact tls_accept_complete. Qed.
+Print Assumptions C01_tls_accept_complete.
+
+Theorem C01_tls_dialed_mismatch :
+  forall on_curve verify x spki p q,
+    tls_verify on_curve verify x spki = Accept p -> q <> p ->
+    tls_accept on_curve verify x spki (Some q) = Reject EMismatch.
+Proof. exact tls_reject_mismatch. Qed.
+Print Assumptions C01_tls_dialed_mismatch.
+
+(* under the single-message hypothesis: an extension made for one certificate key is refused in a
+   certificate with another key *)
+Theorem C01_tls_binding :
+  forall (on_curve : bytes -> bool) (verify : bytes -> bytes -> bytes -> bool),
+    (forall pk m m' sg, verify pk m sg = true -> verify pk m' sg = true -> m = m') ->
+    forall x spki spki' e' p',
+      tls_accept on_curve verify x spki' e' = Accept p' -> spki <> spki' ->
+      forall e, tls_accept on_curve verify x spki e = Reject ETlsIssuer.
+Proof. exact tls_binding. Qed.
+Print Assumptions C01_tls_binding.
 
 (* ---- binding to the static key of this very session ---- *)
 (* under the single-message hypothesis on `verify` (the unforgeability idealisation, listed in
@@ -286,7 +349,7 @@ Theorem C01_transcript_honest_partial :
   forall on_curve verify (H : list item -> bytes) (KDF : list bytes -> bytes)
          (pubk : N -> bytes) (dh : N -> bytes -> bytes),
     (forall x y, dh x (pubk y) = dh y (pubk x)) ->
-    forall D L,
+    forall D L, pro D = pro L ->
       let a := forward on_curve verify H KDF pubk dh D L in
       no_forgery on_curve verify H KDF pubk dh D L a /\
       snd (run_d on_curve verify H KDF pubk dh D a) =
@@ -295,10 +358,10 @@ Theorem C01_transcript_honest_partial :
        run_l on_curve verify H KDF pubk dh L a =
         outcome_of (check_dialed (dialed_of L) (verify_identity on_curve verify (pay D) (pubk (sta D))))).
 Proof.
-  intros oc vf H KDF pubk dh comm D L. split; [|split].
+  intros oc vf H KDF pubk dh comm D L EP. split; [|split].
   - exact (forward_no_forgery oc vf H KDF pubk dh D L).
-  - exact (honest_dialer oc vf H KDF pubk dh comm D L).
-  - exact (honest_listener oc vf H KDF pubk dh comm D L).
+  - exact (honest_dialer oc vf H KDF pubk dh comm D L EP).
+  - exact (honest_listener oc vf H KDF pubk dh comm D L EP).
 Qed.
 Print Assumptions C01_transcript_honest_partial.
 
@@ -307,3 +370,174 @@ Theorem C01_transcript_hash_instance_partial :
   forall a b, H_inst a = H_inst b -> a = b.
 Proof. exact H_inst_inj. Qed.
 Print Assumptions C01_transcript_hash_instance_partial.
+
+(* ---- the prologue (WebRTC: "libp2p-webrtc-noise:" ++ the two DTLS fingerprints) ---- *)
+(* a handshake run under one pair of fingerprints is rejected under another: with different
+   prologues neither side accepts, whatever the attacker delivers; and whoever accepts used the
+   same prologue as its peer *)
+Theorem C01_webrtc_prologue_binds :
+  forall on_curve verify (H : list item -> bytes) (KDF : list bytes -> bytes)
+         (pubk : N -> bytes) (dh : N -> bytes -> bytes),
+    (forall a b, H a = H b -> a = b) ->
+    forall D L a,
+      no_forgery on_curve verify H KDF pubk dh D L a ->
+      (pro D <> pro L ->
+       (forall p, snd (run_d on_curve verify H KDF pubk dh D a) <> OAccept p) /\
+       (forall p, run_l on_curve verify H KDF pubk dh L a <> OAccept p)) /\
+      (forall p, snd (run_d on_curve verify H KDF pubk dh D a) = OAccept p -> pro D = pro L) /\
+      (forall p, run_l on_curve verify H KDF pubk dh L a = OAccept p -> pro D = pro L).
+Proof.
+  intros oc vf H KDF pubk dh Hinj D L a NF. split; [|split].
+  - exact (prologue_binds oc vf H KDF pubk dh Hinj D L a NF).
+  - intros p. exact (dialer_prologue oc vf H KDF pubk dh Hinj D L a p NF).
+  - intros p O. exact (proj1 (listener_prologue oc vf H KDF pubk dh Hinj D L a p NF O)).
+Qed.
+Print Assumptions C01_webrtc_prologue_binds.
+
+(* ---- the order of events in XX: who learns what, and when ---- *)
+(* (i) the dialer finishes first: with message 3 withheld the dialer has already accepted the
+   genuine listener while the listener ends with an I/O error (so "a connection" means both ends);
+   (ii) the listener accepts only after the dialer got as far as writing message 3;
+   (iii) the listener's message 2 is the same for all dialers that sent the same message 1: when it
+   reveals its identity it knows nothing about the dialer but an ephemeral key;
+   (iv) the dialer writes message 3 (its own identity payload) before it checks the listener's
+   signature: once the payload of message 2 decodes, message 3 is sent whatever the verdict *)
+Theorem C01_xx_order :
+  forall on_curve verify (H : list item -> bytes) (KDF : list bytes -> bytes)
+         (pubk : N -> bytes) (dh : N -> bytes -> bytes),
+    (forall a b, H a = H b -> a = b) ->
+    (forall x y, dh x (pubk y) = dh y (pubk x)) ->
+    forall D L,
+      (pro D = pro L ->
+       let a := withhold3 H KDF pubk dh D L in
+       no_forgery on_curve verify H KDF pubk dh D L a /\
+       snd (run_d on_curve verify H KDF pubk dh D a) =
+         outcome_of (check_dialed (dialed_of D) (verify_identity on_curve verify (pay L) (pubk (sta L)))) /\
+       run_l on_curve verify H KDF pubk dh L a = OIo) /\
+      (forall a p, no_forgery on_curve verify H KDF pubk dh D L a ->
+         run_l on_curve verify H KDF pubk dh L a = OAccept p ->
+         fst (run_d on_curve verify H KDF pubk dh D a) <> None) /\
+      (forall D', d_msg1 pubk D = d_msg1 pubk D' ->
+         l_msg2 H KDF pubk dh L (d_msg1 pubk D) = l_msg2 H KDF pubk dh L (d_msg1 pubk D')) /\
+      (forall m s pl pp,
+         dec (KDF (d_ks1 dh D m)) (H (d_tr1 pubk D m)) (m2_s m) = Some s ->
+         dec (KDF (d_ks2 dh D m s)) (H (d_tr2 pubk D m)) (m2_p m) = Some pl ->
+         decode_payload pl = Some pp ->
+         d_run on_curve verify H KDF pubk dh D (DMsg m) =
+           (Some (mkM3 (d_cs3 H KDF pubk dh D m s) (d_cp3 H KDF pubk dh D m s)),
+            outcome_of (check_dialed (dialed_of D) (verify_payload on_curve verify pp s)))).
+Proof.
+  intros oc vf H KDF pubk dh Hinj comm D L. split; [|split; [|split]].
+  - exact (dialer_finishes_first oc vf H KDF pubk dh comm D L).
+  - intros a p NF O. exact (proj2 (listener_prologue oc vf H KDF pubk dh Hinj D L a p NF O)).
+  - intros D'. exact (listener_answer_ignores_identity H KDF pubk dh D D' L).
+  - exact (dialer_writes_3_before_verdict oc vf H KDF pubk dh D).
+Qed.
+Print Assumptions C01_xx_order.
+
+(* ---- early data: what the dialer sends before the listener has authenticated it ---- *)
+(* composed with C02's reader: if the listener's handshake does not accept, no byte reaches its
+   application; and in every case nothing of or after the first non-authentic transport frame
+   behind message 3 is delivered (C02_read_tamper) *)
+Theorem C01_early_data :
+  forall on_curve verify (H : list item -> bytes) (KDF : list bytes -> bytes)
+         (pubk : N -> bytes) (dh : N -> bytes -> bytes)
+         (L : party) (a : attack) (e : V.C02.Model.renv) (bufs sc : list N),
+    ((forall p, run_l on_curve verify H KDF pubk dh L a <> OAccept p) ->
+     listener_app_bytes on_curve verify H KDF pubk dh L a e bufs sc = 0) /\
+    (forall j, V.C02.Proofs.wf_env e -> V.C02.Proofs.not_auth e j ->
+     listener_app_bytes on_curve verify H KDF pubk dh L a e bufs sc
+       <= V.C02.Model.pstart (V.C02.Model.e_plains e) j).
+Proof.
+  intros oc vf H KDF pubk dh L a e bufs sc. split.
+  - exact (early_data_dropped oc vf H KDF pubk dh L a e bufs sc).
+  - intros j. exact (early_data_authentic oc vf H KDF pubk dh L a e bufs sc j).
+Qed.
+Print Assumptions C01_early_data.
+
+(* ---- Dolev-Yao model: all interleavings of any number of honest sessions with an active
+   attacker who owns any set `asec` of DH secrets and any set `bad` of identity keys (DY.v) ---- *)
+(* the attacker's knowledge never contains anything but public terms (the invariant behind all
+   secrecy statements): in particular no secret of an honest session, no identity secret of an
+   uncompromised agent, no DH output of two honest secrets and no key that mixes one *)
+Theorem C01_dy_attacker_knows_only_public :
+  forall (asec bad : N -> Prop) tr t, DY.valid asec bad tr -> DY.knows asec bad tr t -> DY.pub asec bad t.
+Proof. exact DY.knows_only_public. Qed.
+Print Assumptions C01_dy_attacker_knows_only_public.
+
+(* the attacker's knowledge only grows with the trace *)
+Theorem C01_dy_knowledge_monotone :
+  forall (asec bad : N -> Prop) tr tr' t,
+    incl tr tr' -> DY.knows asec bad tr t -> DY.knows asec bad tr' t.
+Proof. exact DY.knows_mono. Qed.
+Print Assumptions C01_dy_knowledge_monotone.
+
+Theorem C01_dy_secrets_never_leak :
+  forall (asec bad : N -> Prop) tr,
+    DY.valid asec bad tr ->
+    (forall a e s, In (DY.NewD a e s) tr \/ In (DY.NewL a e s) tr ->
+       ~ DY.knows asec bad tr (DY.TSk e) /\ ~ DY.knows asec bad tr (DY.TSk s)) /\
+    (forall a, ~ bad a -> ~ DY.knows asec bad tr (DY.TIdSk a)).
+Proof.
+  intros asec bad tr V. split.
+  - intros a e s. exact (DY.session_secrets_never_leak asec bad tr a e s V).
+  - intros a. exact (DY.identity_secret_never_leaks asec bad tr a V).
+Qed.
+Print Assumptions C01_dy_secrets_never_leak.
+
+(* authentication, standard form: if an honest dialer session completes believing that it talks
+   to P then, unless P's identity key is compromised, P signed in one of its honest sessions the
+   very static key g^rs that this session's key is bound to; the key mixes g^(e*rs), whose
+   exponents belong to this session and to that session of P, and the attacker never DY.knows it *)
+Theorem C01_dy_dialer_authenticates :
+  forall (asec bad : N -> Prop) tr a e s P rs K,
+    DY.valid asec bad tr -> In (DY.AcceptD a e s P rs K) tr -> ~ bad P ->
+    In (DY.Signed P (DY.signed_part rs)) tr /\
+    (exists e', In (DY.NewD P e' rs) tr \/ In (DY.NewL P e' rs) tr) /\
+    ~ asec e /\ ~ asec rs /\
+    (exists k y, K = DY.TMix (DY.TMix k (DY.dh e rs)) (DY.dh s y)) /\
+    ~ DY.knows asec bad tr K.
+Proof. exact DY.dialer_authenticates. Qed.
+Print Assumptions C01_dy_dialer_authenticates.
+
+Theorem C01_dy_listener_authenticates :
+  forall (asec bad : N -> Prop) tr a e s P rs K,
+    DY.valid asec bad tr -> In (DY.AcceptL a e s P rs K) tr -> ~ bad P ->
+    In (DY.Signed P (DY.signed_part rs)) tr /\
+    (exists e', In (DY.NewD P e' rs) tr \/ In (DY.NewL P e' rs) tr) /\
+    ~ asec e /\ ~ asec rs /\
+    (exists k, K = DY.TMix k (DY.dh e rs)) /\
+    ~ DY.knows asec bad tr K.
+Proof. exact DY.listener_authenticates. Qed.
+Print Assumptions C01_dy_listener_authenticates.
+
+(* the session key is shared with the holder of the authenticated static key and with DY.nobody
+   else: the attacker never DY.knows it (above), and an honest listener session that holds the same
+   key as an honest dialer session is the session owning the static key the dialer authenticated,
+   authenticated the dialer's static key in turn, and each is the agent the other believes in *)
+Theorem C01_dy_matching_sessions :
+  forall (asec bad : N -> Prop) tr a e s P rs a' e' s' P' rs' K,
+    DY.valid asec bad tr -> In (DY.AcceptD a e s P rs K) tr -> In (DY.AcceptL a' e' s' P' rs' K) tr ->
+    rs = s' /\ rs' = s /\ (~ bad P -> a' = P) /\ (~ bad P' -> a = P').
+Proof. exact DY.matching_sessions. Qed.
+Print Assumptions C01_dy_matching_sessions.
+
+(* every secret belongs to exactly one honest session (freshness) *)
+Theorem C01_dy_secret_owner_unique :
+  forall (asec bad : N -> Prop) tr ev1 ev2 x,
+    DY.valid asec bad tr -> In ev1 tr -> In ev2 tr -> In x (DY.names ev1) -> In x (DY.names ev2) -> ev1 = ev2.
+Proof. exact DY.owner_unique. Qed.
+Print Assumptions C01_dy_secret_owner_unique.
+
+(* non-vacuity: the honest run is a DY.valid trace in which both sessions accept each other with the
+   same key, DY.nobody being compromised *)
+Theorem C01_dy_honest_run :
+  DY.valid DY.nobody DY.nobody DY.honest_trace /\
+  In (DY.AcceptD 10 1 2 20 4 (DY.d_key 1 2 3 4)) DY.honest_trace /\
+  In (DY.AcceptL 20 3 4 10 2 (DY.l_key 3 4 1 2)) DY.honest_trace /\
+  DY.d_key 1 2 3 4 = DY.l_key 3 4 1 2.
+Proof.
+  split; [exact DY.honest_trace_valid|]. split; [right; left; reflexivity|].
+  split; [left; reflexivity|reflexivity].
+Qed.
+Print Assumptions C01_dy_honest_run.
